@@ -9,6 +9,7 @@ func init() {
 	vHarnesses["H_C01_gen"] = H_C01_gen
 	vHarnesses["H_C03_cut"] = H_C03_cut
 	vHarnesses["H_C04_catch"] = H_C04_catch
+	vHarnesses["H_C09_history"] = H_C09_history
 }
 
 // H_C01_sld: differential run of case `inst` of the C01 corpus (real VM vs reference SLD core).
@@ -33,4 +34,10 @@ func H_C03_cut(inst int) {
 func H_C04_catch(inst int) {
 	i := newFull()
 	engine.VH_C04(&i.VM, inst)
+}
+
+// H_C09_history: bounded database histories (family = inst) against the logical-update-view reference.
+func H_C09_history(inst int) {
+	i := newFull()
+	engine.VH_C09(&i.VM, inst)
 }
